@@ -11,12 +11,12 @@ import (
 )
 
 var mutationSeeds = []string{
-	`{"a":1,"b":[true,false,null],"c":{"d":"e\né😀","f":-1.5e+10}}`,
+	`{"a":1,"b":[true,false,null],"c":{"d":"e\n\u00e9\ud83d\ude00","f":-1.5e+10}}`,
 	`[1,2,3,"x",{"k":[]},{},[[]],0.5,-0,1E5,18446744073709551615]`,
 	`{"key with spaces":"value \"quoted\" \\ backslash","":"empty key","nested":{"a":{"b":{"c":[1,[2,[3]]]}}}}`,
 	`[ 1 , 2 ,	3 ,
  4 ]`,
-	`{"unicode":"Aé€𝄞","raw":"Aé€𝄞","ctl":"\b\f\n\r\t\/"}`,
+	`{"unicode":"\u0041\u00e9\u20ac\ud834\udd1e","raw":"Aé€𝄞","ctl":"\b\f\n\r\t\/"}`,
 	`[true,false,null,true ,false ,null ]`,
 	`{"n":[0,-0,0.0,-0.0,1e0,1e-0,1E+0,123456789012345678901234567890,9223372036854775807,-9223372036854775808,9223372036854775808]}`,
 	`[[[[[[[[[[[[[[[[[[[[[[[[[[[[[[[[[]]]]]]]]]]]]]]]]]]]]]]]]]]]]]]]]]`,
